@@ -264,3 +264,105 @@ Proof.
   eexists. exists {| l_rec := ex_rec_out; l_sub := 1 |}.
   split; [vm_compute; reflexivity|]. split; [left; reflexivity|]. split; vm_compute; reflexivity.
 Qed.
+
+(* ---------------------------------------------------------------- *)
+(* a constructed state is a fixed point of save -> print -> parse -> construct (no recorded class involved) *)
+
+Lemma tinsert_keys x t : forall k, In k (map l_cid (tinsert x t)) -> k = l_cid x \/ In k (map l_cid t).
+Proof.
+  induction t as [|y t IH]; simpl; intros k H.
+  - destruct H as [<-|[]]. auto.
+  - destruct (bytes_eqb (l_cid y) (l_cid x)) eqn:E; simpl in H.
+    + apply bytes_eqb_eq in E. destruct H as [<-|H]; auto.
+    + destruct H as [<-|H]; auto. destruct (IH k H); auto.
+Qed.
+
+Lemma tinsert_NoDup x t : NoDup (map l_cid t) -> NoDup (map l_cid (tinsert x t)).
+Proof.
+  induction t as [|y t IH]; simpl; intros H.
+  - constructor; [intros []|constructor].
+  - inversion H as [|? ? Hy Ht]; subst.
+    destruct (bytes_eqb (l_cid y) (l_cid x)) eqn:E; simpl.
+    + apply bytes_eqb_eq in E. constructor; [rewrite <- E; exact Hy|exact Ht].
+    + constructor; [|apply IH; exact Ht].
+      intros Hin. destruct (tinsert_keys _ _ _ Hin) as [Ek|Hk]; [|contradiction].
+      apply bytes_eqb_neq in E. contradiction.
+Qed.
+
+Lemma load_loop_NoDup cap s1 s2 rs : forall tt,
+  NoDup (map l_cid tt) -> NoDup (map l_cid (load_loop cap s1 s2 rs tt)).
+Proof.
+  induction rs as [|v rest IH]; intros tt H; simpl; auto.
+  repeat match goal with
+         | |- context [if ?x then _ else _] => destruct x
+         | |- context [match r_cid v with _ => _ end] => destruct (r_cid v)
+         end; auto; apply IH; apply tinsert_NoDup; exact H.
+Qed.
+
+Lemma contains_avalid p x : contains p x = true -> avalid x = true.
+Proof.
+  unfold contains. destruct p as [|[|n|v z] b], x as [|m|w y]; simpl; rewrite ?andb_false_r; try discriminate; reflexivity.
+Qed.
+
+Lemma existsb_false {A} (f : A -> bool) l : (forall x, In x l -> f x = false) -> existsb f l = false.
+Proof.
+  induction l as [|y l IH]; simpl; intros H; auto.
+  rewrite (H y (or_introl eq_refl)). simpl. apply IH. intros x Hx. apply H. right. exact Hx.
+Qed.
+
+Lemma filter_all {A} (p : A -> bool) l : (forall x, In x l -> p x = true) -> filter p l = l.
+Proof.
+  induction l as [|y l IH]; simpl; intros H; auto.
+  rewrite (H y (or_introl eq_refl)). f_equal. apply IH. intros x Hx. apply H. right. exact Hx.
+Qed.
+
+(* the table of every constructed state has distinct keys, only Allocated leases, and is outside the
+   recorded restart class with respect to its own net1 *)
+Lemma new_table_wf c cap i s : new c cap i = Ok s ->
+  NoDup (map l_cid (d_table s))
+  /\ (forall l, In l (d_table s) -> allocated l = true)
+  /\ known_C18_restart (d_n1 s) (d_table s) = false.
+Proof.
+  intros H.
+  destruct (new_cases c cap i) as [[_ E]|[(Hok & _ & E)|[(Hok & _ & E)|(Hok & n1 & n2 & t & HL & C1 & C2 & E)]]];
+    rewrite E in H; try discriminate.
+  - destruct (reset_inv _ _ H) as (_ & _ & Ht). rewrite Ht. simpl. repeat split; [constructor|intros l []].
+  - inversion H; subst; simpl.
+    destruct (loadConfig_inv _ _ _ _ _ HL) as (d & -> & Hl).
+    pose proof (load_filters _ _ _ _ _ Hl) as HF.
+    destruct (load_inv _ _ _ _ _ Hl) as (_ & _ & ->).
+    repeat split.
+    + apply load_loop_NoDup. constructor.
+    + intros l Hin. apply (HF l Hin).
+    + unfold known_C18_restart. apply existsb_false. intros l Hin.
+      destruct (HF l Hin) as (Ha & Hc & Hcid & _).
+      rewrite Ha, Hc. simpl.
+      assert (Hv : avalid (r_ip (l_rec l)) = true) by (eapply contains_avalid; eauto).
+      rewrite Hv. simpl.
+      destruct (r_cid (l_rec l)) as [|x xs]; [contradiction|reflexivity].
+Qed.
+
+Section Yaml2.
+  Variable text : Type.
+  Variable print : doc -> text.
+  Variable parse : text -> option doc.
+
+  (* C18_restart_fixpoint (full strength): whatever the first input was (missing file, YAML error, ANY document),
+     saving the constructed state and constructing again gives the same subnets and the same bindings. *)
+  Lemma restart_fixpoint :
+    yaml_roundtrip text print parse ->
+    forall c cap0 i0 s cap,
+      home_masked c ->
+      new c cap0 i0 = Ok s ->
+      exists s', new c cap (input_of_text text parse (print (save (d_n1 s) (d_n2 s) (d_table s)))) = Ok s'
+                 /\ d_n1 s' = d_n1 s /\ d_n2 s' = d_n2 s
+                 /\ bindings (d_table s') = bindings (d_table s).
+  Proof.
+    intros Hy c cap0 i0 s cap Hm Hnew.
+    destruct (new_table_wf _ _ _ _ Hnew) as (Hnd & Hall & Hk).
+    destruct (restart_partial text print parse Hy c cap0 i0 s cap (d_table s) (d_table s) Hm Hnew Hk Hnd (Permutation_refl _))
+      as (s' & E & E1 & E2 & Et & _).
+    exists s'. repeat split; auto.
+    rewrite Et, bindings_restored. unfold acked_bindings. rewrite (filter_all _ _ Hall). reflexivity.
+  Qed.
+End Yaml2.
